@@ -1,7 +1,6 @@
 package aggregation
 
 import (
-	"math"
 	"rare/pkg/aggregation/sorting"
 	"rare/pkg/stringSplitter"
 	"strconv"
@@ -121,26 +120,21 @@ func (s *TableAggregator) OrderedRows(sorter sorting.NameValueSorter) []*TableRo
 }
 
 func (s *TableAggregator) ComputeMinMax() (min, max int64) {
-	min, max = math.MaxInt64, math.MinInt64
+	first := true
 
 	for _, r := range s.rows {
 		for colKey := range s.cols {
 			val := r.cols[colKey]
-			if val < min {
+			if first || val < min {
 				min = val
 			}
-			if val > max {
+			if first || val > max {
 				max = val
 			}
+			first = false
 		}
 	}
 
-	if min == math.MaxInt64 {
-		min = 0
-	}
-	if max == math.MinInt64 {
-		max = 0
-	}
 	return
 }
 
